@@ -15,6 +15,8 @@ package main
 //   d:<srv>:<0|1>         server SessionTicketsDisabled
 //   v:<srv>:<hhhh>        server MaxVersion (TLS mode)
 //   z:<0|1>               client SessionTicketsDisabled
+//   n:<srv>               the server goes on with a NEW Config (same settings) on which SetSessionTicketKeys was never
+//                         called: the library creates a random ticket key when it first needs one (c16enable.go)
 //
 // Output: one token per connection step: F<n> (full handshake; n = number of this connection), R<n> (resumed the
 // session created by full handshake n), E (handshake failed on both sides), joined by ','.  Intrinsic oracles
@@ -168,7 +170,7 @@ func evalResume(args []string) string {
 			var keys [][32]byte
 			for _, id := range strings.Split(f[2], "+") {
 				n, err := strconv.Atoi(id)
-				if err != nil {
+				if err != nil || n < 0 || n >= 1000000000 { // the model names automatic keys from 10^9 on
 					return "bad-op"
 				}
 				keys = append(keys, ticketKey(n))
@@ -197,6 +199,9 @@ func evalResume(args []string) string {
 			servers[srv&1].MaxVersion = uint16(v)
 		case f[0] == "z" && len(f) == 2:
 			clientTicketsOff = f[1] == "1"
+		case f[0] == "n" && len(f) == 2:
+			srv, _ := strconv.Atoi(f[1])
+			servers[srv&1] = c16FreshConfig(servers[srv&1])
 		case f[0] == "c" && len(f) == 5:
 			nconn++
 			srv, _ := strconv.Atoi(f[1])
